@@ -59,7 +59,7 @@ TARGETS = {
 # hooks of DESIGN.md section 8 expand to nothing, and nothing has to supply trrouting_verif_point); cachegen uses no repo code
 NO_GUARD = {"server", "cachegen"}
 
-SETUP_TARGETS = [("core", "asan")]
+SETUP_TARGETS = [("core", "asan"), ("server", "asan"), ("cachegen", "plain"), ("c14", "asan"), ("c14", "tsan")]
 
 
 class BuildError(Exception):
